@@ -378,7 +378,7 @@ func checkPublishIDs(c *Ctx, r *Rep, h *ssa.Function) {
 				if l := innermostLoop(loopsOf(f), b); l != nil {
 					for lb := range l.Blocks {
 						for _, lin := range lb.Instrs {
-							if ra, ok := lin.(*ssa.IndexAddr); ok && ra != ia && sources(ra.X)["field:Messages"] && ra.Index == ia.Index {
+							if ra, ok := lin.(*ssa.IndexAddr); ok && ra != ia && isRequestField(ra.X, "Messages") && ra.Index == ia.Index {
 								okIdx = true
 							}
 						}
@@ -395,6 +395,23 @@ func checkPublishIDs(c *Ctx, r *Rep, h *ssa.Function) {
 	if !found {
 		r.Fail("C02.4", key, h.Pos(), "Publish never fills MessageIds")
 	}
+}
+
+// isRequestField: v is the request's repeated field itself (a direct load of the field, or its generated getter),
+// not a copy that a call may have permuted or filtered.
+func isRequestField(v ssa.Value, field string) bool {
+	v = resolve(v)
+	if u, ok := v.(*ssa.UnOp); ok && u.Op == token.MUL {
+		if fa, ok := u.X.(*ssa.FieldAddr); ok && fieldName(fa.X.Type(), fa.Field) == field {
+			return true
+		}
+	}
+	if call, ok := v.(*ssa.Call); ok {
+		if cal := call.Call.StaticCallee(); cal != nil && cal.Name() == "Get"+field && cal.Signature.Recv() != nil {
+			return true
+		}
+	}
+	return false
 }
 
 func dependsOnValue(v, target ssa.Value) bool {
